@@ -67,6 +67,7 @@ structure Ctx where
   preH : String
   preI : String
   preR : String
+  preP : List String := []
   implT : String
   implP : List String
   implH : String
@@ -145,13 +146,34 @@ def pendingOf (e : String) : Option (Nat × Int × Nat) :=
   | [a, _, ctr, _, q] => do pure (← a.toNat?, ← ctr.toInt?, ← q.toNat?)
   | _ => none
 
+/-- the data messages of a T section as (payload length, number of transmissions) -/
+def msgCounts (t : String) : List (Nat × Nat) :=
+  (inner t).filterMap (fun g =>
+    if g.startsWith "m" then
+      match (g.drop 1).toString.splitOn ">" with
+      | [len, dsts] => len.toNat?.map (fun l => (l, (dsts.splitOn "+").length))
+      | _ => none
+    else none)
+
 /-- C32: queue cap, retry schedule (against the countdown specification), flush on completion.
 `view` is the specification's expected `(addr, counter)` list after a tick / trigger; `tainted` are the
 addresses whose timer-wheel entry count exceeds one (a stale timer of an earlier handshake to the same
 address is still in the wheel), used only to name the class of a schedule violation. -/
-def c32 (c : Ctx) (k : Kind) (cfg : Cfg) (view : Option (List (Nat × Int))) (tainted : List Nat) : String :=
+def c32 (c : Ctx) (k : Kind) (cfg : Cfg) (view : Option (List (Nat × Int))) (tainted : List Nat)
+    (isSend : Bool := false) : String :=
   let ps := c.implP.filterMap pendingOf
   if ps.any (fun p => p.2.2 > Nebula.Gen.hsm_maxCachedPackets) then "bad c32-queue-over-cap" else
+  -- one tun packet: transmitted at most once, and never both transmitted and left in a pending handshake's queue
+  let sendV :=
+    if !isSend then "ok" else
+    let sent := (msgCounts c.implT).foldl (fun acc m => acc + m.2) 0
+    let pre := c.preP.filterMap pendingOf
+    let grown := (ps.filter (fun p => p.2.2 > ((pre.find? (·.1 == p.1)).map (·.2.2)).getD 0)).length
+    if sent > 1 then "bad c32-packet-sent-twice"
+    else if sent == 1 && grown > 0 then "bad c32-sent-and-queued"
+    else if grown > 1 then "bad c32-queued-twice"
+    else "ok"
+  if sendV != "ok" then sendV else
   let sched :=
     match view with
     | none => "ok"
@@ -169,7 +191,13 @@ def c32 (c : Ctx) (k : Kind) (cfg : Cfg) (view : Option (List (Nat × Int))) (ta
     -- the canonical form writes consecutive transmissions of equal name as one group
     let items := groupTx ((store.filter cfg.allowed).map (fun p => (s!"m{p.len}", [toString src])))
     let want := "T[" ++ ",".intercalate (items.map (fun (n, d) => n ++ ">" ++ "+".intercalate (sortStrs d))) ++ "]"
-    if c.implT == want then "ok" else s!"bad c32-flush-mismatch want={want}"
+    if c.implT == want then "ok" else
+    -- more than the queue held (each wanted message is there, plus others): something is transmitted a second time
+    let wantC := msgCounts want
+    let gotC := msgCounts c.implT
+    let total := fun (l : List (Nat × Nat)) (len : Nat) => (l.filter (·.1 == len)).foldl (fun a m => a + m.2) 0
+    if wantC.all (fun m => total gotC m.1 ≥ total wantC m.1) && gotC.foldl (fun a m => a + m.2) 0 > wantC.foldl (fun a m => a + m.2) 0
+    then s!"bad c32-packet-sent-twice want={want}" else s!"bad c32-flush-mismatch want={want}"
   | _ => "ok"
 
 /-- (local index, remote index) of a tunnel line of section I -/
